@@ -135,29 +135,32 @@ class FilReader(Filterbank):
             )
             raise ValueError(msg)
 
-        self._file.seek(start * self.samp_stride)
+        # Channel c needs samples [min_sample[c], max_sample[c]): read every
+        # sample that any channel needs, not only the first nsamps of them
+        first_sample = int(min_sample.min())
+        last_sample = int(max_sample.max())
+        self._file.seek(first_sample * self.samp_stride)
         samples_read = np.zeros(self.header.nchans, dtype=int)
         data = np.zeros((self.header.nchans, nsamps), dtype=self._file.bitsinfo.dtype)
 
-        for isamp in track(range(nsamps), description="Reading dedispersed data ..."):
-            samples_offset = start + isamp
-            relevant_chans = np.argwhere(
+        for samples_offset in track(
+            range(first_sample, last_sample),
+            description="Reading dedispersed data ...",
+        ):
+            # Read channel data for for each sample
+            sample_data = self._file.cread(self.header.nchans)
+            relevant_chans = np.flatnonzero(
                 np.logical_and(
                     max_sample > samples_offset,
                     min_sample <= samples_offset,
                 ),
-            ).flatten()
-            chans_slice = np.arange(
-                relevant_chans.min(),
-                relevant_chans.max() + 1,
-                dtype=int,
             )
-            # Read channel data for for each sample
-            sample_data = self._file.cread(self.header.nchans)
-            data[chans_slice, samples_read[chans_slice]] = sample_data[chans_slice]
+            data[relevant_chans, samples_read[relevant_chans]] = sample_data[
+                relevant_chans
+            ]
 
             # Update sample counts
-            samples_read[chans_slice] += 1
+            samples_read[relevant_chans] += 1
 
         start_mjd = self.header.mjd_after_nsamps(start)
         new_header = self.header.new_header({"tstart": start_mjd, "nsamples": nsamps})
